@@ -14,6 +14,8 @@ set_option linter.unusedVariables false
 namespace SoyVerif.Lemmas.LexPrint
 open SoyVerif SoyVerif.Model SoyVerif.Model.Lex
 
+variable {tg : Int}
+
 /-- a lead byte ≥ 0x80 decodes to a rune ≥ 0x80 (RuneError included) whose continuation bytes
     are all ≥ 0x80 -/
 theorem decode_hi (a : Array UInt8) (i : Nat) (h : 128 ≤ byteAt a i) :
@@ -79,7 +81,7 @@ theorem inpAt_getD {inp : Array UInt8} {p : Nat} {s : Bytes} (h : InpAt inp p s)
 theorem next_any {inp : Array UInt8} {p : Nat} {b : UInt8} {s : Bytes} (h : InpAt inp p (b :: s)) (st w le its) :
     ∃ (r : Int) (c s' : Bytes), s = c ++ s' ∧ (∀ x ∈ c, 128 ≤ x.toNat) ∧
       (b.toNat < 128 → r = (b.toNat : Int) ∧ c = []) ∧ (128 ≤ b.toNat → 128 ≤ r) ∧
-      (L inp p st w le its).next = some (r, L inp (p + (c.length + 1)) st ((c.length + 1 : Nat) : Int) le its) := by
+      (L tg inp p st w le its).next = some (r, L tg inp (p + (c.length + 1)) st ((c.length + 1 : Nat) : Int) le its) := by
   by_cases hb : b.toNat < 128
   · exact ⟨b.toNat, [], s, rfl, by simp, fun _ => ⟨rfl, rfl⟩, fun h' => by omega, next_L h hb st w le its⟩
   · have ⟨h1, h2⟩ := inpAt_get h
@@ -304,7 +306,7 @@ theorem runeAt_append {s : Bytes} {r w : Nat} (t : Bytes) (h : runeAt s = some (
 /-- `next` over the valid rune at the head of the input -/
 theorem next_rune {inp : Array UInt8} {p : Nat} {s : Bytes} {r w : Nat} (h : InpAt inp p s) (hr : runeAt s = some (r, w))
     (st w0 le its) :
-    (L inp p st w0 le its).next = some ((r : Int), L inp (p + w) st (w : Int) le its) := by
+    (L tg inp p st w0 le its).next = some ((r : Int), L tg inp (p + w) st (w : Int) le its) := by
   obtain ⟨hd, hw1, hw2⟩ := decode_runeAt h hr
   have hlen := inpAt_len h
   unfold Lexer.next L Lexer.len
@@ -312,7 +314,7 @@ theorem next_rune {inp : Array UInt8} {p : Nat} {s : Bytes} {r w : Nat} (h : Inp
   rw [if_neg (by omega), if_neg (by omega)]
   simp
 
-theorem backup_Lw (inp p st le its) (w : Nat) : (L inp (p + w) st (w : Int) le its).backup = L inp p st (w : Int) le its := by
+theorem backup_Lw (inp p st le its) (w : Nat) : (L tg inp (p + w) st (w : Int) le its).backup = L tg inp p st (w : Int) le its := by
   unfold Lexer.backup L; simp
 
 /-- letter / digit / underscore, decided on ASCII without the Unicode tables -/
@@ -366,8 +368,8 @@ theorem scan_runes (hA : ∀ r : Nat, alnumR r = true → isAlphaNumeric (r : In
     ∀ (f : Nat) (k : Bytes) {p : Nat} {rest : Bytes}, alnumRunes f k = true → InpAt inp p (k ++ rest) →
     AsciiHd rest → isAlphaNumeric (hdRune rest) = false →
     ∀ (st : Nat) (w : Int) (le : Item) (its : Array Item),
-    scanWhile isAlphaNumeric isAlphaNumeric_eof (L inp p st w le its) =
-      some (hdRune rest, L inp (p + k.length + hdW rest) st (hdW rest) le its)
+    scanWhile isAlphaNumeric isAlphaNumeric_eof (L tg inp p st w le its) =
+      some (hdRune rest, L tg inp (p + k.length + hdW rest) st (hdW rest) le its)
   | _, [], p, rest, _, h, ha, hf, st, w, le, its => by
     rw [scanWhile_some (next_hd (by simpa using h) ha st w le its), if_neg (by simp [hf])]
     simp
@@ -378,7 +380,7 @@ theorem scan_runes (hA : ∀ r : Nat, alnumR r = true → isAlphaNumeric (r : In
     · rename_i r wd hr
       simp only [Bool.and_eq_true] at hk
       obtain ⟨hw1, hw2⟩ := runeAt_width hr
-      have hn := next_rune h (runeAt_append rest hr) st w le its
+      have hn := next_rune (tg := tg) h (runeAt_append rest hr) st w le its
       rw [scanWhile_some hn, if_pos (hA r hk.1)]
       rw [scan_runes hA f ((b :: s).drop wd) hk.2 (inpAt_drop h hw2) ha hf]
       congr 3
